@@ -322,6 +322,30 @@ func subPairs() mon.Sub {
 
 // ------------------------------------------------- single peer, chunking independence
 
+var hdrWriterKinds = []string{"nil", "string", "bytes", "func", "http-1", "http-many"}
+
+// hdrWriter returns a fresh extra-header writer of the given kind (the caller's
+// headers are part of "the bytes written", which may not vary from run to run).
+func hdrWriter(kind string) ws.HandshakeHeader {
+	switch kind {
+	case "string":
+		return ws.HandshakeHeaderString("X-Extra: one\r\nX-Other: two\r\n")
+	case "bytes":
+		return ws.HandshakeHeaderBytes("X-Extra: one\r\nX-Other: two\r\n")
+	case "func":
+		return ws.HandshakeHeaderFunc(func(w io.Writer) (int64, error) {
+			n, err := io.WriteString(w, "X-Extra: one\r\n")
+			m, _ := io.WriteString(w, "X-Other: two\r\n")
+			return int64(n + m), err
+		})
+	case "http-1":
+		return ws.HandshakeHeaderHTTP(http.Header{"X-Extra": {"one"}})
+	case "http-many":
+		return ws.HandshakeHeaderHTTP(http.Header{"X-Extra": {"one", "again"}, "Cookie": {"a=b; c=d"}, "Origin": {"http://chunk.example"}, "X-Zeta": {"z"}, "Authorization": {"Bearer abc"}, "X-Alpha": {"a"}, "User-Agent": {"monitor"}})
+	}
+	return nil
+}
+
 var keyRe = regexp.MustCompile(`(?i)Sec-WebSocket-Key: [A-Za-z0-9+/=]{24}`)
 
 func subUpgraderChunking() mon.Sub {
@@ -367,11 +391,13 @@ func subUpgraderChunking() mon.Sub {
 			}
 			var base *res
 			var basePlan string
+			hdrKind := hdrWriterKinds[c.I%len(hdrWriterKinds)]
 			plans := xport.Plans(c.Rng.Int63(), nil)
 			for k := 0; k < 5; k++ {
 				c.Count(1)
 				plan := plans[(c.I+k*3)%len(plans)]
 				u := ws.Upgrader{ReadBufferSize: rb, WriteBufferSize: bufs[(c.I+k)%len(bufs)], Protocol: func(b []byte) bool { return sel(string(b)) }, Negotiate: negotiator("negotiate-accept")}
+				u.Header = hdrWriter(hdrKind)
 				if k > 0 {
 					u.ReadBufferSize = bufs[(c.I+k)%len(bufs)]
 				}
@@ -394,7 +420,7 @@ func subUpgraderChunking() mon.Sub {
 					return
 				}
 			}
-			c.Classf("upg|%s|%v|line=%d", req.Verdict.ClassName(), base.err == "<nil>", line-eff)
+			c.Classf("upg|%s|%v|line=%d|hdr=%s", req.Verdict.ClassName(), base.err == "<nil>", line-eff, hdrKind)
 			c.Sample(map[string]interface{}{"request_len": len(data), "pad_line": line, "read_buf": rb, "outcome": base.err})
 		},
 	}
@@ -441,6 +467,7 @@ func subDialerChunking() mon.Sub {
 				c.Count(1)
 				plan := plans[(c.I+k*3)%len(plans)]
 				d := ws.Dialer{ReadBufferSize: rb, WriteBufferSize: bufs[(c.I+k)%len(bufs)], Protocols: protos}
+				d.Header = hdrWriter(hdrWriterKinds[c.I%len(hdrWriterKinds)])
 				if k > 0 {
 					d.ReadBufferSize = bufs[(c.I+k)%len(bufs)]
 				}
